@@ -22,7 +22,8 @@ RULE = ('triple lists over 3 sources x 6 roles (with/without colon, :instance, i
         'length<=3 strided (thorough); seeded random lists with duplicates, concept-equals-variable, '
         'None targets; pairs sharing triples; operation histories of 1-6 steps mixing |, |=, -, -=, '
         'top assignment on a pool of 3 graphs, compared step by step with the sequential reference '
-        'model. Non-trivial: the list has >=2 triples (queries) / the history has >=2 steps.')
+        'model (half of the histories are queried only at the end, after one warm-up query of every '
+        'graph, so that state cached by an early query is still present when it matters). Non-trivial: the list has >=2 triples (queries) / the history has >=2 steps.')
 ANCHORS = ['penman.graph:Graph.__init__', 'penman.graph:Graph.__or__', 'penman.graph:Graph.__ior__',
            'penman.graph:Graph.__sub__', 'penman.graph:Graph.__isub__', 'penman.graph:Graph.top',
            'penman.graph:Graph.variables', 'penman.graph:Graph.instances', 'penman.graph:Graph.edges',
@@ -30,7 +31,7 @@ ANCHORS = ['penman.graph:Graph.__init__', 'penman.graph:Graph.__or__', 'penman.g
            'penman.graph:Graph.reentrancies', 'penman.graph:Graph.__eq__']
 PROBES = {'C17': 5}
 MIN_EVAL = {'quick': 20000, 'thorough': 300000}
-REQUIRED_COUNTERS = ['queries', 'history_steps', 'invariant_checks', 'top_refused', 'top_accepted',
+REQUIRED_COUNTERS = ['queries', 'history_steps', 'deferred_query_histories', 'invariant_checks', 'top_refused', 'top_accepted',
                      'op:|', 'op:|=', 'op:-', 'op:-=']
 SRC = ['a', 'b', 'c']
 TGT = ['a', 'b', 'c', 'x', None, 7]
@@ -327,6 +328,13 @@ def oracle(ctx, kind, p):
             pool.append(mk(tr, top, ep, meta))
         nsteps = rng.randrange(1, 7)
         history = []
+        # half of the histories query only at the end (after warming every graph up with one
+        # query), so that state cached by an early query is still there when it matters
+        deferred = rng.random() < 0.5
+        if deferred:
+            ctx.count('deferred_query_histories')
+            for g0, m0 in pool:
+                check_queries(ctx, g0, m0, {'history': 'warm-up'})
         for step in range(nsteps):
             i, j = rng.randrange(3), rng.randrange(3)
             if i == j:
@@ -356,7 +364,13 @@ def oracle(ctx, kind, p):
             k = rng.randrange(3)
             if op in ('|', '-'):
                 pool[k] = (u, mu)       # result replaces some graph of the pool
-            check_queries(ctx, u, mu, det)
+            if not deferred:
+                check_queries(ctx, u, mu, det)
+        if deferred:
+            for g0, m0 in pool:
+                m0.epi = {t: markers(g0, t) for t in g0.epidata if markers(g0, t)}
+                check_queries(ctx, g0, m0, {'history': history, 'queried': 'at the end only'})
+                check_top_setter(ctx, g0, m0, rng.choice(['a', 'b', 'c', 'x', None]), {'history': history})
         ctx.case(history, nsteps >= 2)
         if ctx.want_sample() and nsteps >= 4:
             ctx.sample({'history': history, 'initial': [m.triples for _, m in pool]})
